@@ -468,7 +468,8 @@ class Evaluator(abc.ABC):
 
             for job_id in job_id_not_gathered:
                 job_data = jobs_data[job_id]
-                if job_data and job_data["out"]:
+                # A stored output that is falsy (e.g. an objective of 0.0) is a result like any other
+                if job_data and job_data["out"] is not None:
                     job = self._create_job(
                         job_id,
                         job_data["in"]["args"][0],
